@@ -441,59 +441,39 @@ impl<'a> Searcher<'a> {
                         items.push((field_name, record));
                     }
 
-                    results.push(items);
+                    // the values the group rows are ordered by: computed like any column of the group,
+                    // so an ordering key does not have to be selected
+                    let ordering_fields = self.query.ordering_fields.clone();
+                    let mut criteria = vec![];
+                    for ordering_expr in ordering_fields.iter() {
+                        criteria.push(
+                            self.get_column_expr_value(
+                                None,
+                                &None,
+                                &mut file_map,
+                                Some(f.1),
+                                ordering_expr,
+                            )
+                            .to_string(),
+                        );
+                    }
+
+                    results.push((
+                        Criteria::new(
+                            ordering_fields,
+                            criteria,
+                            self.query.ordering_asc.clone(),
+                        ),
+                        items,
+                    ));
                 });
 
                 if !self.query.ordering_fields.is_empty() {
-                    let ordering_fields = self
-                        .query
-                        .ordering_fields
-                        .iter()
-                        .map(|f| f.to_string().to_lowercase())
-                        .collect::<Vec<String>>();
-                    let directions = self.query.ordering_asc.clone();
-                    let sorting_indices = ordering_fields
-                        .iter()
-                        .map(|f| {
-                            self.query
-                                .fields
-                                .iter()
-                                .map(|f| f.to_string().to_lowercase())
-                                .position(|g| &g == f)
-                                .unwrap_or(0)
-                        })
-                        .collect::<Vec<usize>>();
-
-                    results.sort_by(|a, b| {
-                        sorting_indices
-                            .iter()
-                            .enumerate()
-                            .map(|(idx, i)| {
-                                if let Some(a) = a.get(*i) {
-                                    if let Ok(a) = a.1.parse::<i64>() {
-                                        if let Some(b) = b.get(*i) {
-                                            if let Ok(b) = b.1.parse::<i64>() {
-                                                return if directions[idx] { 
-                                                    a.cmp(&b) 
-                                                } else { 
-                                                    b.cmp(&a) 
-                                                };
-                                            }
-                                        }
-                                    }
-                                }
-                                if directions[idx] { 
-                                    a.get(*i).unwrap().1.cmp(&b.get(*i).unwrap().1) 
-                                } else { 
-                                    b.get(*i).unwrap().1.cmp(&a.get(*i).unwrap().1) 
-                                } 
-                            })
-                            .find(|r| *r != std::cmp::Ordering::Equal)
-                            .unwrap_or(std::cmp::Ordering::Equal)
-                    });
+                    // the same typed comparison as for ungrouped rows: numeric, date or text per key
+                    results.sort_by(|a, b| a.0.cmp(&b.0));
                 }
 
-                results.iter().enumerate().for_each(|(idx, items)| {
+                results.iter().enumerate().for_each(|(idx, (_, items))| {
                     let mut buf = WritableBuffer::new();
                     if idx > 0 {
                         let _ = self.results_writer.write_row_separator(&mut buf);
